@@ -443,7 +443,12 @@ func (s *session) newManifest(rec *sessionRecord, v *version) (err error) {
 				s.manifestWriter.Close()
 			}
 			if !s.manifestFd.Zero() {
-				err = s.stor.Remove(s.manifestFd)
+				// The new manifest is complete and CURRENT points to it: failing
+				// to remove the obsolete one must not fail the commit (the file
+				// is removed as garbage by the next open).
+				if rerr := s.stor.Remove(s.manifestFd); rerr != nil {
+					s.logf("manifest@remove removing @%d %q", s.manifestFd.Num, rerr)
+				}
 			}
 			s.manifestFd = fd
 			s.manifestWriter = writer
